@@ -134,8 +134,10 @@ mod tests {
 
 #[cfg(feature = "verif-hooks")]
 impl SimpleCycle {
+    #[allow(clippy::needless_update)]
     pub fn vh_from_parts(ptrs: Vec<usize>, start: usize, len: usize) -> Self {
-        Self { ptrs, start, len }
+        // struct update syntax: keeps compiling if the representation gains fields
+        Self { ptrs, start, len, ..Self::new(0) }
     }
     pub fn vh_ptrs(&self) -> &[usize] {
         &self.ptrs
